@@ -545,4 +545,77 @@ __all__""")]),
                 name="__call__",""", """                name="__call__",
                 body=body,
                 decorator_list=[],""")]),
+    # ------------------------------------------------------------------ round-2 rules
+    dict(id="file1b-abspath-vs-realpath", kind=B, props=["C10"], expect="FILE-1b", edits=[("conformance.py",
+         """                if path.realpath(path.expanduser(filename))
+                == path.realpath(path.expanduser(truth_file))""",
+         """                if path.abspath(path.expanduser(filename))
+                == path.abspath(path.expanduser(truth_file))""")]),
+    dict(id="file1b-both-via-helper", kind=N, props=["C10"], expect="silent", edits=[("conformance.py",
+         """                if path.realpath(path.expanduser(filename))
+                == path.realpath(path.expanduser(truth_file))""",
+         """                if _canonical(filename) == _canonical(truth_file)"""), ("conformance.py",
+         """def _default_options(node, search, type_wanted):""",
+         """def _canonical(filename):
+    \"\"\" One spelling per file \"\"\"
+    return path.realpath(path.expanduser(filename))
+
+
+def _default_options(node, search, type_wanted):""")]),
+    dict(id="file5b-prefix-before-black", kind=B, props=["C06", "C09", "C11"], expect="FILE-5", edits=[("emit.py",
+         """    src = to_code(node)
+    if not skip_black:""", """    src = to_code(node)
+    if mode.startswith("a") and path.isfile(filename):
+        with open(filename, "rt") as f:
+            existing_src = f.read()
+        if existing_src and not existing_src.endswith("\\n"):
+            src = "\\n{}".format(src)
+    if not skip_black:"""), ("emit.py",
+         """    if mode.startswith("a") and path.isfile(filename):
+        with open(filename, "rt") as f:
+            existing_src = f.read()
+        if existing_src and not existing_src.endswith("\\n"):
+            # Appending to a last line without a newline would glue two statements together
+            src = "\\n{}".format(src)
+    with open(filename, mode) as f:""", """    with open(filename, mode) as f:""")]),
+    dict(id="file6b-gen-canonicalises-output", kind=B, props=["C19", "C20"], expect="FILE-6b", edits=[("gen.py",
+         """    extra_symbols = {}
+    if imports_from_file is None:""", """    extra_symbols = {}
+    output_filename = path.realpath(path.expanduser(output_filename))
+    if imports_from_file is None:""")]),
+    dict(id="file6c-usage-error-after-work", kind=B, props=["C20"], expect="FILE-6c", edits=[("__main__.py",
+         """        return args if return_args else ground_truth(args, truth_file)""",
+         """        try:
+            return args if return_args else ground_truth(args, truth_file)
+        except KeyError as e:
+            _parser.error(str(e))""")]),
+    dict(id="callsib-create-branch-default-doc", kind=B, props=["C08", "C10"], expect="CALL-SIB", edits=[("conformance.py",
+         """                emit_default_doc=False,  # emit_func.__name__ == "class_\"""",
+         """                emit_default_doc=emit_func.__name__ == "class_",""")]),
+    dict(id="typeflow-direct-sink", kind=B, props=["C18"], expect="TYPEFLOW", edits=[("emit.py",
+         """                line_length=119,""", """                line_length=environ.get("DOCTRANS_LINE_LENGTH", 119),"""), ("emit.py",
+         """from os import path
+""", """from os import environ, path
+""")]),
+    dict(id="det3-scoped-flag-hoisted", kind=B, props=["C01", "C07", "C12"], expect="DET-3", edits=[("docstring_parsers.py",
+         """def _parse_phase_rest(
+    intermediate_repr,""", """_seen_default = [False]
+
+
+def _parse_phase_rest(
+    intermediate_repr,"""), ("docstring_parsers.py",
+         """    param = [
+        None,
+        {},
+    ]  # First elem is name""", """    _seen_default.append(True)
+    param = [
+        None,
+        {},
+    ]  # First elem is name""")]),
+    dict(id="mod2-shallow-copy-body", kind=B, props=["C13", "C16"], expect="MOD-2", edits=[("emit.py",
+         """map(RewriteName(param_names).visit, deepcopy(internal_body)),""",
+         """map(RewriteName(param_names).visit, map(copy, internal_body)),"""), ("emit.py",
+         """from copy import deepcopy
+""", """from copy import copy, deepcopy
+""")]),
 ]
